@@ -1,6 +1,7 @@
 pub mod c01;
 pub mod c02;
 pub mod c03;
+pub mod c04;
 pub mod c05;
 pub mod c06;
 pub mod c07;
@@ -26,6 +27,7 @@ pub fn run_property(ctx: &mut Ctx) -> bool {
         "C01" => c01::run(ctx),
         "C02" => c02::run(ctx),
         "C03" => c03::run(ctx),
+        "C04" => c04::run(ctx),
         "C05" => c05::run(ctx),
         "C06" => c06::run(ctx),
         "C07" => c07::run(ctx),
@@ -81,6 +83,7 @@ pub fn replay(body: &Value) -> i32 {
         "segments" => replay_part(&c09::SegPart, body),
         "recovery" => replay_part(&c02::C02Part, body),
         "termination" => replay_part(&c03::C03Part, body),
+        "final" => replay_part(&c04::C04Part, body),
         "identity" => replay_part(&c01::C01Part, body),
         "decode" => replay_part(&c06::DecPart, body),
         "crc" => replay_part(&c15::CrcPart, body),
